@@ -194,16 +194,11 @@ fn known(log: &Log) -> u32 {
 	l.rate_changes.last().copied().or(l.init.last().map(|x| x.0)).unwrap_or(0)
 }
 
-/// line length kira should use: max(⌊ns·sr / 10⁹⌋, 1), in integers; `None` at the f64 rounding boundary
-/// (recorded finding delay-length-float-floor: the f64 product may round below a whole number of frames)
+/// line length kira uses: max(⌊ns·sr / 10⁹⌋, 1), in integers — also at the whole-frame boundary, where the
+/// f64 product used to round below it (repaired defect delay-length-float-floor)
 fn line_frames(ns: u64, sr: u32) -> Option<u64> {
 	let exact = ((ns as u128 * sr as u128) / 1_000_000_000u128) as u64;
-	let float = (Duration::from_nanos(ns).as_secs_f64() * sr as f64) as usize as u64;
-	if exact == float {
-		Some(exact.max(1))
-	} else {
-		None
-	}
+	Some(exact.max(1))
 }
 
 /// Freeverb's shortest comb line (left channel): the first reflection, 1116 samples at 44.1 kHz
@@ -601,9 +596,13 @@ fn other_rate(rng: &mut Rng, pool: &[u32], not: u32) -> u32 {
 		}
 	}
 }
-/// a delay time of about `frames` frames at rate `sr`, away from the whole-frame boundary
+/// a delay time of about `frames` frames at rate `sr`: mostly away from the whole-frame boundary, sometimes
+/// exactly a whole number of frames (where the f64 product of the old formula could round below it)
 fn ns_for(rng: &mut Rng, frames: u64, sr: u32) -> u64 {
 	let per = 1_000_000_000u64 / sr as u64;
+	if (frames * 1_000_000_000u64) % sr as u64 == 0 && rng.chance(1, 4) {
+		return frames * 1_000_000_000u64 / sr as u64;
+	}
 	frames * 1_000_000_000u64 / sr as u64 + per / 4 + rng.below(per / 2)
 }
 fn gen_probe_item(rng: &mut Rng) -> String {
